@@ -98,3 +98,7 @@ CaseOutcome prop_execute(const std::string & case_json) {
     vfs::reset();
     return oc;
 }
+
+// ---- exhaustive part: every schedule with <= K preemptions of a few tiny programs ------------------
+#include "../twr_enum.h"
+std::string prop_enumerate(const std::string & tier, const std::string & outdir) { return twr_enum::run(tier, outdir, false); }
